@@ -14,6 +14,10 @@
 (*                                     asked of the grid object; stuttering *)
 (*  Write/Read[art, digest]            digest id of shape+values+order      *)
 (*  ComputeEnergy []                   lattice energies assigned per cell   *)
+(*  CheckPT   [nframes, want, dev3, m1dev3, tol3, selok, structok]          *)
+(*       the pseudotrajectory FILES read back with the package's reader:    *)
+(*       deviations from the prescribed placements in 1e-3 Angstrom, tol3 = *)
+(*       the precision of the file format                                   *)
 (*  BuildRate [n, adj <<[i,j]>>, cond <<[i,j,id]>>, sh <<[i,j,id]>>,        *)
 (*             rowsum9, connected]                                          *)
 (*       cond = class of Q_ij V_i base^(k_j-k_i) / D  (the conductance),    *)
@@ -58,6 +62,16 @@ EigClause(e) ==
   ELSE IF e.spread > SpreadBand THEN "leading left eigenvector is not proportional to V_i exp(-E_i/RT)"
   ELSE "ok"
 
+(* pseudotrajectory files read back (growth G05): one frame per grid row, in row order, molecule 1 untouched *)
+PtClause(e) ==
+  IF e.err # "" THEN "exception:" \o e.err
+  ELSE IF e.nframes # e.want THEN "the pseudotrajectory files do not hold one frame per grid row"
+  ELSE IF e.m1dev3 > e.tol3 THEN "the first molecule is not at rest at its centred coordinates in every frame read back"
+  ELSE IF e.dev3 > e.tol3 THEN "a frame read back is not the rigid placement prescribed by the grid row of the same index"
+  ELSE IF ~e.selok THEN "the second-molecule selection of the reader is not the atoms of the second molecule"
+  ELSE IF ~e.structok THEN "the structure file is not frame 0"
+  ELSE "ok"
+
 TraceInit == Init /\ cur = Log[1].tid /\ l = 1 /\ written = <<>> /\ TLCSet(1, 0)
 
 Key(a) == <<cur, a>>
@@ -73,7 +87,8 @@ TraceNext ==
                                      THEN "read back differs from what was written: " \o Ev.art ELSE "ok")
                        /\ UNCHANGED written
      \/ Ev.ev = "Inspect" /\ Check(IF Ev.err # "" THEN "exception:" \o Ev.err ELSE "ok") /\ UNCHANGED <<vars, written>>     \* partial (position-only / orientation-only) matrices asked of the grid object: no artefact changes
-     \/ Ev.ev = "GenPT" /\ GenPT /\ UNCHANGED written
+     \/ Ev.ev = "GenPT" /\ GenPT /\ Check(IF Ev.err # "" THEN "exception:" \o Ev.err ELSE "ok") /\ UNCHANGED written
+     \/ Ev.ev = "CheckPT" /\ Check(PtClause(Ev)) /\ UNCHANGED <<vars, written>>
      \/ Ev.ev = "ComputeEnergy" /\ ComputeEnergy /\ UNCHANGED written
      \/ Ev.ev = "BuildRate" /\ BuildRate /\ Check(RateClause(Ev)) /\ UNCHANGED written
      \/ Ev.ev = "Decompose" /\ Decompose /\ Check(EigClause(Ev)) /\ UNCHANGED written
